@@ -6,13 +6,19 @@ package c13
 // tables (sets of full SessionState values), signatures, inconclusive handling.
 
 import (
+	"errors"
 	"fmt"
+	"net"
+	"net/http"
+	"net/http/httptest"
+	"os"
 	"reflect"
 	"runtime"
 	"sort"
 	"strings"
 	"sync"
 	"sync/atomic"
+	"syscall"
 	"testing"
 	"time"
 
@@ -124,6 +130,39 @@ func pollUntil(cond func() bool) bool {
 	}
 }
 
+// ---- loopback listeners ------------------------------------------------------
+//
+// The layers run as parallel processes and every short HTTP connection leaves a TIME_WAIT
+// socket behind for 60 s, so the machine can momentarily be out of ephemeral ports (bind:
+// EADDRINUSE).  That is a condition of the environment, never a verdict: wait, bounded, for
+// ports to be released.
+
+const listenTimeout = 90 * time.Second
+
+func listenLoopback() (net.Listener, error) {
+	deadline := time.Now().Add(listenTimeout)
+	for {
+		l, err := net.Listen("tcp", "127.0.0.1:0")
+		if err == nil || !errors.Is(err, syscall.EADDRINUSE) || time.Now().After(deadline) {
+			return l, err
+		}
+		time.Sleep(50 * time.Millisecond)
+	}
+}
+
+// newLoopbackServer is httptest.NewServer without its panic when no port can be bound (a panic inside
+// a rapid property would be recorded as a failing case): the process ends as INCONCLUSIVE instead.
+func newLoopbackServer(h http.Handler) *httptest.Server {
+	l, err := listenLoopback()
+	if err != nil {
+		fmt.Fprintf(os.Stderr, "INCONCLUSIVE: no loopback port for a harness server within %v: %v\n", listenTimeout, err)
+		os.Exit(2)
+	}
+	srv := &httptest.Server{Listener: l, Config: &http.Server{Handler: h}}
+	srv.Start()
+	return srv
+}
+
 // goroutineBaseline/leakCheck: harness hygiene — nothing may outlive a test function.
 func goroutineBaseline() int { return runtime.NumGoroutine() }
 
@@ -204,7 +243,11 @@ func detState(id string, ver int) ha.SessionState {
 	}
 	return ha.SessionState{
 		SessionID:       id,
-		SubscriberID:    "sub-" + id,
+		// ("subscriber-", not "sub-": with the shorter value the snapshot {s0 v1} encoded to exactly 512
+		// bytes, the initial buffer of json.Decoder; performFullSync then never reads the trailing
+		// newline, net/http drops the connection instead of reusing it, and the exhaustive layer burnt
+		// ~20k ephemeral ports in 20 s — harness hygiene only, no oracle depends on it)
+		SubscriberID:    "subscriber-" + id,
 		MAC:             fmt.Sprintf("02:00:00:00:%02x:%02x", n&0xff, ver&0xff),
 		IP:              fmt.Sprintf("10.%d.%d.%d", n&0xff, (ver>>8)&0xff, ver&0xff),
 		IPv6:            ip6Pool[ver%len(ip6Pool)],
